@@ -6,6 +6,7 @@ GROUPS = [
     ("k1_drop_", "K1.ownership", ["C04", "C05", "C01"], "KanalPtr write/read hand over ownership: the writer does not drop, the reader gets exactly one instance"),
     ("k1_", "K1.roundtrip", ["C04"], "KanalPtr transports every value of the type bit-for-bit on the lend/read, write-into-slot, copy, owned and unchecked paths"),
     ("k2_last_waker_wins", "K2.last-waker", ["C04", "C16"], "the waker registered last is the one invoked, exactly once"),
+    ("k2_terminator_identity", "K2.terminator-identity", ["C04", "C13", "C15"], "SignalTerminator == Signal holds exactly for the signal the terminator was taken from (support for the trusted `eq` used by cancel_* and *_signal_exists)"),
     ("k2_", "K2.signal-protocol", ["C04"], "sequential signal protocol: send/recv/terminate complete the waiter with the right outcome and payload"),
     ("k4_", "K4.layout", ["C09", "C12"], "sync and async handle types are layout-identical wrappers of the shared state"),
 ]
